@@ -48,6 +48,7 @@ def gen_plan(rng, tier: str, idx: int) -> dict:
         "included": included,
         "excluded": excluded,
         "qgen": rng.choice([0, 1, 1, 2]),
+        "idents": W.gen_idents(rng, len(kernels)),
     }
 
 
